@@ -357,6 +357,10 @@ impl ConsumeUnverifiedBlockProcessor {
         }
         db_txn.commit()?;
 
+        // verif hook: the database holds the new chain state, the published snapshot is still the old one
+        #[cfg(feature = "verif-hooks")]
+        crate::verif::gate("verify_block:after-commit", &block.header().hash());
+
         if new_best_block {
             let tip_header = block.header();
             info!(
